@@ -89,6 +89,22 @@ def contract(cfg: Dict[str, Any], events: List[List[Any]], status: str) -> List[
                     order_ok = False
     if not order_ok:
         bad.append("DocumentedOrder")
+    # ... and of the extensions among themselves, also where the main visitor does not leave the node (ExtOrder in Visitor.tla)
+    rank_v = {"BEFORE": 1, "OUTTER": 2, "AFTER": 3, "INNER": 4}
+    rank_d = {"BEFORE": 1, "INNER": 2, "AFTER": 3, "OUTTER": 4}
+    reg = {t: i for i, t in enumerate(["B", "B2", "A", "I", "O"])}
+    ext_ok = True
+    for e1 in exts:
+        for e2 in exts:
+            if e1 == e2:
+                continue
+            for kind, rank in (("visit", rank_v), ("depart", rank_d)):
+                if (rank[EXT_WHEN[e1]], reg[e1]) < (rank[EXT_WHEN[e2]], reg[e2]):
+                    for x in range(1, n + 2):
+                        if seen(e1, kind, x) and seen(e2, kind, x) and not p(e1, kind, x) < p(e2, kind, x):
+                            ext_ok = False
+    if not ext_ok:
+        bad.append("ExtOrder")
     if any(seen(e, "visit", x) != seen("main", "visit", x) for e in exts for x in range(1, n + 1)):
         bad.append("SameNodesForAll")
     # documented meaning of the pruning exceptions
@@ -372,6 +388,7 @@ INVARIANT MainBalanced
 INVARIANT WalkNoDepart
 INVARIANT WellNested
 INVARIANT DocumentedOrder
+INVARIANT ExtOrder
 INVARIANT SameNodesForAll
 INVARIANT PruningMeans
 INVARIANT ErrorsSurface
